@@ -866,7 +866,13 @@ impl<'a> AnalyzeContext<'a, '_> {
                 | EntityClass::Units
                 | EntityClass::File
                 | EntityClass::Label => {
-                    if ent.parent != Some(parent) {
+                    // An enumeration literal is declared by its type declaration, its parent is the type
+                    let declared_in = if *entity_class == EntityClass::Literal {
+                        ent.parent.and_then(|typ| typ.parent)
+                    } else {
+                        ent.parent
+                    };
+                    if declared_in != Some(parent) {
                         diagnostics.add(
                             designator.pos(self.ctx),
                             "Attribute specification must be in the immediate declarative part",
